@@ -7,7 +7,8 @@ EXPLANATION = 'Mixed. P: statistics.null_count written by write_column equals th
 def p_parts():
     from ._bookkeeping import p_bookkeeping
     from ._sorted import p_sorted
-    return [p_bookkeeping, p_sorted]
+    from ._generic import optional_parts
+    return [p_bookkeeping, p_sorted] + optional_parts(("_options", "p_options"))
 
 
 def run(ctx):
